@@ -167,6 +167,8 @@ func propC08(c *Ctx) {
 						vals = []ssa.Value{nil, unfold(hv).v, vals[1]}
 					} else if k, isK := vals[1].(*ssa.Const); isK && k.Value != nil && k.Value.String() == "false" {
 						continue // the miss arms hand out the zero pair
+					} else if definitelyNonNilError(vals[1], nil) {
+						continue // … or report the miss as an error
 					}
 				}
 			}
@@ -295,7 +297,13 @@ func propC08(c *Ctx) {
 			ok := r0 != nil && (r0 == r1 || sameVar(r0, r1)) && len(ch0) > 0 && len(ch1) > 0 && ch0[len(ch0)-1].Name() == "Number" && ch1[len(ch1)-1].Name() == "Hash"
 			if !ok && r0 != nil && r0 == r1 {
 				// the two members of one pair value: from the cache, or built from one response
-				if call, _ := resultOf(stripConv(r0)); call != nil && staticCallee(call) == nhGet {
+				src := stripConv(r0)
+				if al, isAl := src.(*ssa.Alloc); isAl {
+					if cvv := cellValue(al); cvv != nil {
+						src = stripConv(cvv) // the pair spilled to a local
+					}
+				}
+				if call, _ := resultOf(src); call != nil && staticCallee(call) == nhGet {
 					c.Check("R8.2", fmt.Sprintf("Latest/return#%d", n), instrPos(r), true, "cached head: number and hash of the pair one NumHash.get call handed out")
 					continue
 				}
@@ -321,7 +329,10 @@ func propC08(c *Ctx) {
 		n := 0
 		for _, r := range returnsOf(nhGet) {
 			vals := returnValues(r)
-			if cst, ok := vals[len(vals)-1].(*ssa.Const); ok && cst.Value != nil && cst.Value.String() == "true" {
+			last := vals[len(vals)-1]
+			cst, isK := last.(*ssa.Const)
+			// a hit: ok == true, or – when misses are reported as errors – a nil error
+			if isK && ((cst.Value != nil && cst.Value.String() == "true") || (cst.Value == nil && isErrorType(last.Type()))) {
 				n++
 				ok := len(under) > 0 && guardedByEdges(nhGet, r, under) && inc != nil && dominatesInstr(inc, r)
 				c.Check("R8.3", fmt.Sprintf("NumHash.get/cached-return#%d", n), instrPos(r), ok, "a cached head is served only while nreads < maxreads, and the read is counted")
